@@ -30,7 +30,9 @@
 #define MAXVIOL   64
 #define OUTTAB    (1 << 16)
 
-typedef struct { int prog, ndev, next, pad; mv_dev_t dev[MV_MAXDEV]; } job_t;
+/* expand = 1: the schedule itself has been run and accounted; this job (queued one level deeper, so that it is taken only after every
+   schedule of its own depth has run) re-executes it to get the trace and runs its children */
+typedef struct { int prog, ndev, next, expand; mv_dev_t dev[MV_MAXDEV]; } job_t;
 
 typedef struct {
   int prog, verdict, ndev, nsteps, confirmed;
@@ -228,19 +230,21 @@ static void report_violation(mv_shared_t * sh, int prog, int W, int ndev, const 
   unlock();
 }
 
-static void push_job(int prog, int ndev, const mv_dev_t * dev) {
+static void push_job_(int prog, int ndev, const mv_dev_t * dev, int expand) {
+  int lvl = ndev + expand;
   lock();
   int j = C->free_head;
   if (j >= 0) { C->free_head = C->pool[j].next; }
   else if (C->pool_used < POOL) { j = C->pool_used++; }
-  else { C->stop = 2; C->incomplete_depth[ndev] = 1; unlock(); return; }
+  else { C->stop = 2; C->incomplete_depth[lvl] = 1; unlock(); return; }
   job_t * jb = &C->pool[j];
-  jb->prog = prog; jb->ndev = ndev; jb->next = -1;
+  jb->prog = prog; jb->ndev = ndev; jb->next = -1; jb->expand = expand;
   for (int i = 0; i < ndev; i++) jb->dev[i] = dev[i];
-  if (C->tail[ndev] >= 0) C->pool[C->tail[ndev]].next = j; else C->head[ndev] = j;
-  C->tail[ndev] = j; C->queued[ndev]++; C->pending_at_depth[ndev]++;
+  if (C->tail[lvl] >= 0) C->pool[C->tail[lvl]].next = j; else C->head[lvl] = j;
+  C->tail[lvl] = j; C->queued[lvl]++; C->pending_at_depth[lvl]++;
   unlock();
 }
+static void push_job(int prog, int ndev, const mv_dev_t * dev) { push_job_(prog, ndev, dev, 0); }
 
 static int pop_job(job_t * out) {
   lock();
@@ -273,9 +277,18 @@ static void run_job(mv_shared_t * sh, const job_t * jb) {
   int prog = jb->prog, K = C->prog_K[prog], W = C->prog_W[prog];
   int depth = jb->ndev;
   execute(sh, prog, W, jb->ndev, jb->dev, g_run_timeout, 0);
-  account(sh, prog, depth, jb->ndev, jb->dev);
-  if (sh->verdict != MV_OK) { report_violation(sh, prog, W, jb->ndev, jb->dev); return; }
-  if (depth >= K) return;
+  if (!jb->expand) {
+    account(sh, prog, depth, jb->ndev, jb->dev);
+    if (sh->verdict != MV_OK) { report_violation(sh, prog, W, jb->ndev, jb->dev); return; }
+    if (depth >= K) return;
+    /* the children of a schedule of the last-but-one depth are run inside one job; keep the order shallowest-first (and the completed
+       bound exact under a deadline) by doing that only after every schedule of this depth has run */
+    if (depth >= 1 && depth + 1 == K) { push_job_(prog, depth, jb->dev, 1); return; }
+  } else if (sh->verdict != MV_OK) {
+    /* the same schedule passed a moment ago: allow for a slow machine once, then treat it like any failing schedule (replayed twice) */
+    execute(sh, prog, W, jb->ndev, jb->dev, g_run_timeout * 10, 0);
+    if (sh->verdict != MV_OK) { report_violation(sh, prog, W, jb->ndev, jb->dev); return; }
+  }
   int n = sh->nsteps;
   memcpy(g_steps_copy, sh->steps, n * sizeof(mv_step_t));
   memcpy(g_hash_copy, sh->prefix_hash, n * sizeof(uint64_t));
@@ -313,7 +326,7 @@ static void explorer_proc(int id) {
     if (r < 0) break;
     if (r == 0) { { struct timespec ts_ = {0, 300000}; syscall(SYS_nanosleep, &ts_, NULL); }; continue; }
     run_job(sh, &jb);
-    lock(); C->inflight--; C->pending_at_depth[jb.ndev]--; unlock();
+    lock(); C->inflight--; C->pending_at_depth[jb.ndev + jb.expand]--; unlock();
   }
   _exit(0);
 }
